@@ -32,16 +32,29 @@ def main(ids):
         rc1, o1 = sh('cargo test --workspace --no-fail-fast --offline 2>&1')
         ok1, bad1 = tests_summary(o1)
         shutil.copy(os.path.join(d, 'demo.rs'), os.path.join(WT, 'tests/seed_demo.rs'))
-        rc2, o2 = sh('cargo test --offline --test seed_demo 2>&1')
+        demo_cmd = 'cargo test --offline --test seed_demo 2>&1'
+        needs_serde = 'serde_json' in open(os.path.join(d, 'demo.rs')).read()
+        def add_dep():
+            if needs_serde:
+                ct = open(os.path.join(WT, 'Cargo.toml')).read()
+                if 'serde_json' not in ct:
+                    open(os.path.join(WT, 'Cargo.toml'), 'w').write(ct.replace('[dev-dependencies]', '[dev-dependencies]\nserde_json = "1"'))
+        if needs_serde:
+            demo_cmd = 'cargo test --offline --features serde --test seed_demo 2>&1'
+            shutil.copy('/repo/Cargo.lock', os.path.join(WT, 'Cargo.lock.bak'))
+        add_dep()
+        rc2, o2 = sh(demo_cmd)
         ok2, bad2 = tests_summary(o2)
         sh('git checkout -q -- .')
-        rc3, o3 = sh('cargo test --offline --test seed_demo 2>&1')
+        add_dep()
+        rc3, o3 = sh(demo_cmd)
+        sh('git checkout -q -- .')
         ok3, bad3 = tests_summary(o3)
         os.remove(os.path.join(WT, 'tests/seed_demo.rs'))
         confirmed = (rc1 == 0 and ok1 == 37 and bad1 == 0) and (rc2 != 0 and bad2 > 0) and (rc3 == 0 and bad3 == 0 and ok3 > 0)
         meta.update({'confirmed': confirmed,
                      'ran': {'suite_with_change': f'cargo test --workspace --no-fail-fast --offline -> rc={rc1}, {ok1} passed, {bad1} failed',
-                             'demo_with_change': f'cargo test --offline --test seed_demo -> rc={rc2}, {ok2} passed, {bad2} failed',
+                             'demo_with_change': f'{demo_cmd} -> rc={rc2}, {ok2} passed, {bad2} failed',
                              'demo_without_change': f'rc={rc3}, {ok3} passed, {bad3} failed'}})
         json.dump(meta, open(meta_p, 'w'), indent=1, ensure_ascii=False)
         print(sid, 'CONFIRMED' if confirmed else 'NOT CONFIRMED', meta['ran'], flush=True)
